@@ -340,6 +340,9 @@ class BuiltinMixin(object):
         if x.is_py and isinstance(x.py, tuple):
             yield st, x
             return
+        if not x.is_py and x.ty.kind == 'list' and st.ghost.get('lshadow:%s' % x.term) is not None:
+            yield st, SV(None, Ty('pytuple'), tuple(st.ghost['lshadow:%s' % x.term]))
+            return
         raise OutOfReach('tuple(%r)' % (x,))
 
     def bi_set(self, st, args, kwargs, fr):
@@ -633,7 +636,9 @@ class BuiltinMixin(object):
             yield self.raise_(st, AttributeError, name)
             return
         if name in ('append', 'insert', 'remove', 'extend', 'pop'):
-            self.note_list_mutation(st, recv)
+            if 'lshadow:%s' % a in st.ghost:
+                st = st.copy()
+                del st.ghost['lshadow:%s' % a]
         if name == 'append':
             (x,) = args
             self.check_assignable(x, elemty, 'list element')
